@@ -189,7 +189,7 @@ CHECKS = {
                 "compared with a first-write-wins map; persistent backends are dropped and reopened mid-sequence and at the end. replica: the same op script (engine 'general') runs over all 12 backends; the per-op state/graph digest sequence must equal the memory baseline, including reopen on a new adapter object. "
                 "non-trivial = >=5 keys (contract) / script with >=2 commits compared on all backends." + DISTINCT,
         "assumptions": ASSUME_COMMON + ["keys are item-like names: ASCII, >= 2 characters, no '/', not containing '.flate'/'.brotli'"],
-        "jobs": [mode("contract", "c17contract", (360, 3200), args={"ops": 300})] +
+        "jobs": [mode("contract", "c17contract", (288, 3200), args={"ops": 240})] +
                 [engine("replica-" + b.replace("+", "-"), "general", "any", (32, 1200), args={"backend": b, "fulldigests": 1, "steps": 30}, shards=2, env={"RAYON_NUM_THREADS": "2"}, env_by_shard=None) for b in BACKENDS] +
                 [{"name": "memcheck-sqlite", "external": "memcheck", "tier": "thorough"}],
     },
